@@ -82,8 +82,9 @@ class FunctionInteractionsUtils(object):
         non_empty_paths = [p for p in paths if p != empty_path]
 
         # There are both empty paths and non-empty paths. it should be one or the other.
-        if len(paths) > len(non_empty_paths) > 0 and current_prefix is not None:
-            res.append(current_prefix)
+        if len(paths) > len(non_empty_paths) > 0:
+            # (at the top level the terminal path is the root itself, a prefix of every other path)
+            res.append(current_prefix if current_prefix is not None else empty_path)
 
         splits = [DDSPathUtils.split(p) for p in non_empty_paths]
         # _logger.debug("non_terminal splits: %s", splits)
